@@ -4,6 +4,7 @@
  *   tgt <blob>                    state: the complete new file B (its header and correct chunks)
  *   src1 <blob> / src2 <blob>     state: source files as they are on disk (possibly damaged or crafted); "-" = none
  *   case tmark=<+|0 per chunk> seq=<ops>     ops: c1|c2 zck_copy_chunks(src, tgt), m1|m2 zck_find_matching_chunks(src, tgt),
+ *                                            vt|v1 zck_validate_lead() on the opened target / source,
  *                                            nt|n1|n2 zck_set_ioption(ZCK_NO_WRITE, 1) on the target / a source (a rarely used mode that
  *                                            read contexts accept; what the copy then claims must still be true of the file)
  * flow: the target gets B's header, the chunks marked '+' and 0xAA elsewhere; zck_init_read, zck_find_valid_chunks,
@@ -57,9 +58,11 @@ static void run_one(int idx, FILE *out, void *vctx) {
     int step = 0;
     for(char *o = strtok_r(ops, ",", &save); o; o = strtok_r(NULL, ",", &save), step++) {
         int si = o[1] == '2' ? 1 : 0;
-        if(o[0] == 'n') {
+        if(o[0] == 'n' || o[0] == 'v') {
+            /* n: ZCK_NO_WRITE; v: zck_validate_lead() on the already opened context (it re-reads the lead from the start of the
+             * file and leaves the context where it was - a caller that checks a pinned header again before trusting the file) */
             zckCtx *z = o[1] == 't' ? tgt : src[si];
-            int r = z ? zck_set_ioption(z, ZCK_NO_WRITE, 1) : -1;
+            int r = !z ? -1 : o[0] == 'n' ? zck_set_ioption(z, ZCK_NO_WRITE, 1) : zck_validate_lead(z);
             if(z && !r) zck_clear_error(z);
             fprintf(out, "Q %d step=%d op=%s ret=%d", idx, step, o, r);
             dump_flags(tgt, out, "flags");
